@@ -5,16 +5,19 @@ import "verif/internal/eng"
 func init() {
 	register(&Property{
 		ID: "C29",
-		Explanation: "Decides the 'at least one working key at every interruption point' and 'same master key' clauses structurally: (passwd-order) changePassword removes the old key — the id read before switching — only behind the success edges of AddKey and of the verification that the repository opens with the new key; a failed verification removes the new key and only then; (current-key-guard) repository.RemoveKey reaches the backend Remove only on id != repo.KeyID(), removes a KeyFile handle, and key files are removed nowhere else (neither directly nor through the generic removal path); (same-master) every AddKey call outside createMasterKey passes repo.Key() as the master key to seal, a fresh random master key is generated only when no template is given (init), and the user key is KDF(password). (key-search-complete) searchKey tries every listed key up to the limit: the counter compared with maxKeys starts at 0 and is advanced by one in exactly one place of the listing callback and nowhere else, ErrMaxKeysReached is returned only behind counter > maxKeys (strictly), a nil return of the callback is reached only after openKey was applied to the listed id, ErrUnauthenticated continues with the next key, and before the listing searchKey returns only with a successfully opened hinted key (added after a seeded change that charged the hinted attempt to the budget). Not decided: which passwords open a given key file (scrypt/Poly1305 behaviour).",
+		Explanation: "Decides the 'at least one working key at every interruption point' and 'same master key' clauses structurally: (passwd-order) changePassword removes the old key — the id read before switching — only behind the success edges of AddKey and of the verification that the repository opens with the new key; a failed verification removes the new key and only then; (current-key-guard) repository.RemoveKey reaches the backend Remove only on id != repo.KeyID(), removes a KeyFile handle, and key files are removed nowhere else (neither directly nor through the generic removal path); (same-master) every AddKey call outside createMasterKey passes repo.Key() as the master key to seal, a fresh random master key is generated only when no template is given (init), and the user key is KDF(password). (key-search-complete) searchKey tries every listed key up to the limit: the counter compared with maxKeys starts at 0 and is advanced by one in exactly one place of the listing callback and nowhere else, ErrMaxKeysReached is returned only behind counter > maxKeys (strictly), a nil return of the callback is reached only after openKey was applied to the listed id, ErrUnauthenticated continues with the next key, and before the listing searchKey returns only with a successfully opened hinted key (added after a seeded change that charged the hinted attempt to the budget). (key-removal-exclusive) every removal of a key file in cmd/restic is reached only from a command that opened the repository with openWithExclusiveLock (the removal of a key the command has just added and found broken is exempt by name): the 'key in use' guard knows only its own process, the exclusive lock is what keeps two processes from removing each other's key (added after a seeded change that gave key remove the shared lock). Not decided: which passwords open a given key file (scrypt/Poly1305 behaviour).",
 		Assumptions: commonAssumptions,
 		Technique:   "static analysis: CFG edge cuts + value origin of the key ids and the sealed master key + call-site enumeration (go/ssa)",
 		Run: func(c *eng.Ctx) {
+			ruleKeyRemovalExclusive(c)
 			ruleKeyOrder(c)
 			ruleKeyRemoval(c)
 			ruleSameMaster(c)
 			ruleKeySearchComplete(c)
 		},
 		Controls: []Control{
+			{Name: "key-passwd-with-shared-lock", File: "cmd/restic/cmd_key_passwd.go",
+				Old: "	ctx, repo, unlock, err := openWithExclusiveLock(ctx, gopts, false, printer)", New: "	ctx, repo, unlock, err := openWithAppendLock(ctx, gopts, false, printer)", Rule: "key-removal-exclusive"},
 			{Name: "last-permitted-key-not-tried", File: "internal/repository/key.go",
 				Old: "		if maxKeys > 0 && checked > maxKeys {", New: "		if maxKeys > 0 && checked >= maxKeys {", Rule: "key-search-complete"},
 			{Name: "wrong-password-ends-the-search", File: "internal/repository/key.go",
